@@ -37,6 +37,12 @@ def build_cases(ck: core.Check, rnd: random.Random):
     for it in g["items1"]:
         add({"src": "items", "items": [it]}, pipe_render.render_module({"items": [it]}))
     items1_keys = {pipe_check.item_key(i) for i in g["items1"]}
+    # a constrained primitive as the only carrier of an invariant (no class invariant, no verification function)
+    n_bare = 0
+    for it in g["items"]:
+        if it["k"] == "cprim" and it.get("base") == "bare" and pipe_check.item_key(it) not in items1_keys:
+            add({"src": "items", "items": [it]}, pipe_render.render_module({"items": [it]}))
+            n_bare += 1
     n2 = 0
     if not ck.quick:
         items2 = [i for i in g["items"] if pipe_check.item_key(i) not in items1_keys and i["k"] in ("invariant", "func", "class", "constset", "enum")]
@@ -49,7 +55,7 @@ def build_cases(ck: core.Check, rnd: random.Random):
     corpus = pipe_check.corpus_texts(rnd, n_lines=0 if ck.quick else 300, n_bytes=0, n_big=0 if ck.quick else 1, whole=True)
     for desc, text in corpus:
         add(desc, text)
-    counts = {"recorded": len(rec), "items_dev1": len(g["items1"]), "items_dev2": n2, "models": len(pipe_render.MODEL_EXTRAS), "corpus": len(corpus)}
+    counts = {"recorded": len(rec), "cprim_bare": n_bare, "items_dev1": len(g["items1"]), "items_dev2": n2, "models": len(pipe_render.MODEL_EXTRAS), "corpus": len(corpus)}
     return cases, counts
 
 
